@@ -10,6 +10,11 @@ mod hist;
 use refsem::evidence::{machinery, parse_args};
 
 fn main() {
+    // child process of C13: large configurations through the cache (isolated: a build that
+    // recurses or loops for ever under the cache lock must not take the check down with it)
+    if std::env::args().nth(1).as_deref() == Some("c13-large-probe") {
+        c13::large_probe();
+    }
     let (prop, tier, _rest) = parse_args();
     bridge::quiet_panics();
     match prop.as_str() {
